@@ -744,6 +744,7 @@ result_t DirectProtocolHandler::setState(BusState state, result_t result, bool f
         m_finishedRequests.push(m_currentRequest);
       }
     }
+    m_device->startArbitration(SYN);  // no request is pending any more: reset arbitration state
   }
 
   m_escape = 0;
